@@ -208,6 +208,7 @@ type hist struct {
 	lastSig string
 	revoked map[int]bool
 	writes  int
+	tagID   map[string]int
 }
 
 var histCount int
@@ -218,7 +219,7 @@ func newHist(t *tr.Trace, r *tr.Rand, base, comp, stream string) *hist {
 	os.MkdirAll(dir, 0700)
 	h := &hist{t: t, r: r, dir: dir, path: filepath.Join(dir, "tokens.jsonl"),
 		mt: map[int64]int{}, stamps: map[string]bool{}, heldVer: map[string]int{},
-		revoked: map[int]bool{}}
+		revoked: map[int]bool{}, tagID: map[string]int{}}
 	t.History(comp, stream)
 	token.SetStatefulFilename(h.path)
 	token.VerifResetStateful()
@@ -249,32 +250,23 @@ func (h *hist) stamp() string {
 	return fmt.Sprintf("%d:%d", fi.Size(), h.mtid(ns))
 }
 
-// etagS translates an etag string of the implementation: "-" when empty,
-// "size:mtid" otherwise
+// etagS names an etag string of the implementation: "-" when empty, else
+// t<k> where k numbers the distinct tags in the order the store returned them
+// (the format of the tag is not part of the property)
 func (h *hist) etagS(e string) string {
 	if e == "" {
 		return "-"
 	}
-	if len(e) < 2 || e[0] != '"' || e[len(e)-1] != '"' {
-		return "?"
-	}
-	p := strings.SplitN(e[1:len(e)-1], "-", 2)
-	if len(p) != 2 {
-		return "?"
-	}
-	ns, err := strconv.ParseInt(p[1], 10, 64)
-	if err != nil {
-		return "?"
-	}
-	id, ok := h.mt[ns]
+	id, ok := h.tagID[e]
 	if !ok {
-		return p[0] + ":?"
+		id = len(h.tagID) + 1
+		h.tagID[e] = id
 	}
-	return fmt.Sprintf("%s:%d", p[0], id)
+	return fmt.Sprintf("t%d", id)
 }
 
-// currentEtag is the etag of the file computed from stat, independently of
-// the store.
+// currentEtag is the driver's own signature of the file's stamp (size and
+// mtime from stat), used to tell versions apart.
 func (h *hist) currentEtag() string {
 	fi, err := os.Stat(h.path)
 	if err != nil {
@@ -378,21 +370,28 @@ func (h *hist) list(group int) {
 	h.noteVersion()
 }
 
-// condCheck is the monitor of the conditional-write clause.
-func (h *hist) condCheck(what string, e string, before string, verBefore int, existed bool, c string) {
+// condCheck is the monitor of the conditional-write clause: a write of an
+// existing token succeeds only with a tag that the store returned, and (when
+// every version had a new stamp) only if the file has not changed since the
+// store returned it; a creation succeeds only without a tag.
+func (h *hist) condCheck(what string, e string, verBefore int, existed bool, c string) {
+	if h.broken {
+		// a stamp was reused: the store may legitimately be out of date
+		// (the model predicts what it does)
+		return
+	}
 	h.t.Checked("C16.conditional")
 	if c != "ok" {
 		return
 	}
 	if existed {
-		if e != before || e == "" {
-			h.t.Fail("C16", "conditional", fmt.Sprintf("%s with tag %s succeeded although the current tag is %s", what, e, before))
+		v, handedOut := h.heldVer[e]
+		if e == "" || !handedOut {
+			h.t.Fail("C16", "conditional", fmt.Sprintf("%s of an existing token succeeded with the tag %q, which is not a tag of the current version", what, e))
 			return
 		}
-		if !h.broken {
-			if v, ok := h.heldVer[e]; ok && v != verBefore {
-				h.t.Fail("C16", "conditional", fmt.Sprintf("%s with tag %s succeeded although the file changed since that tag was read", what, e))
-			}
+		if v != verBefore {
+			h.t.Fail("C16", "conditional", fmt.Sprintf("%s with tag %s succeeded although the file changed since that tag was read", what, e))
 		}
 	} else if e != "" {
 		h.t.Fail("C16", "conditional", fmt.Sprintf("%s created a token although a tag %s was given", what, e))
@@ -401,7 +400,6 @@ func (h *hist) condCheck(what string, e string, before string, verBefore int, ex
 
 func (h *hist) upd(rc rec, e string) string {
 	h.waitTickMaybe()
-	before := h.currentEtag()
 	recs, _, _, _ := parseFile(h.path)
 	_, existed := lastWins(recs)[rc.name]
 	verBefore := h.ver
@@ -409,7 +407,7 @@ func (h *hist) upd(rc rec, e string) string {
 	c := classify(err)
 	st := h.stamp()
 	h.t.Op(c, "upd", rc.String(), h.etagArg(e), "0:0", st)
-	h.condCheck("Update", e, before, verBefore, existed, c)
+	h.condCheck("Update", e, verBefore, existed, c)
 	if c == "ok" {
 		delete(h.revoked, rc.name)
 		h.writes++
@@ -420,7 +418,6 @@ func (h *hist) upd(rc rec, e string) string {
 
 func (h *hist) del(name int, e string) string {
 	h.waitTickMaybe()
-	before := h.currentEtag()
 	recs, _, _, _ := parseFile(h.path)
 	_, existed := lastWins(recs)[name]
 	verBefore := h.ver
@@ -428,7 +425,7 @@ func (h *hist) del(name int, e string) string {
 	c := classify(err)
 	st := h.stamp()
 	h.t.Op(c, "del", name, h.etagArg(e), st)
-	h.condCheck("Delete", e, before, verBefore, existed, c)
+	h.condCheck("Delete", e, verBefore, existed, c)
 	if c == "ok" {
 		if !existed && !h.broken {
 			h.t.Fail("C16", "conditional", fmt.Sprintf("Delete of %d succeeded although the file has no such token", name))
@@ -458,19 +455,16 @@ func (h *hist) expire() {
 	h.noteVersion()
 }
 
-// etagArg: the tag as the model sees it
+// etagArg: the tag as the model sees it: "-", a tag the store has returned
+// (t<k>), or "bad" for a string the store never returned
 func (h *hist) etagArg(e string) string {
-	switch e {
-	case "":
+	if e == "" {
 		return "-"
-	case "\"bad\"":
-		return "7:0"
 	}
-	s := h.etagS(e)
-	if strings.Contains(s, "?") {
-		return "7:0"
+	if id, ok := h.tagID[e]; ok {
+		return fmt.Sprintf("t%d", id)
 	}
-	return s
+	return "bad"
 }
 
 var tickWait = true
@@ -636,7 +630,7 @@ func genRec(r *tr.Rand, name int) rec {
 
 // pickTag chooses the tag an editor presents.
 func (h *hist) pickTag(name int) string {
-	switch h.r.Pick(55, 25, 8, 7, 5) {
+	switch h.r.Pick(55, 30, 8, 7) {
 	case 0:
 		return h.get(name) // read it now
 	case 1:
@@ -647,10 +641,8 @@ func (h *hist) pickTag(name int) string {
 		return h.get(name)
 	case 2:
 		return ""
-	case 3:
-		return "\"bad\""
 	}
-	return h.currentEtag() // computed from the file, never given out by the store
+	return "\"bad\""
 }
 
 func (h *hist) randomOp(stale bool) {
@@ -690,7 +682,11 @@ func (h *hist) randomExt(stale bool) {
 	if stale && r.Chance(2, 3) {
 		mode = 2
 	}
-	switch r.Pick(2, 4, 5, 2, 3, 1) {
+	kind := r.Pick(2, 4, 5, 2, 3, 1)
+	if stale {
+		kind = r.Pick(1, 2, 9, 1, 3, 1)
+	}
+	switch kind {
 	case 0:
 		h.ext(nil, -1, true, 0)
 		h.t.Note("ext-remove")
@@ -709,7 +705,10 @@ func (h *hist) randomExt(stale bool) {
 		}
 		c := append([]rec{}, recs...)
 		i := r.Intn(len(c))
-		if c[i].data >= 0 {
+		if r.Bool() && c[i].name >= 1 {
+			// another name of the same length
+			c[i].name = 1 + (c[i].name+r.Intn(4))%5
+		} else if c[i].data >= 0 {
 			c[i].data = (c[i].data + 2) % 10
 		}
 		h.ext(c, -1, false, mode)
@@ -838,7 +837,7 @@ func editors(t *tr.Trace, r *tr.Rand, base string, k int) {
 		pc[ed]++
 	}
 	h.t.Checked("C16.two_editors")
-	if tag[0] == tag[1] && okc[0] && okc[1] && !h.broken {
+	if tag[0] == tag[1] && tag[0] != "" && okc[0] && okc[1] && !h.broken {
 		h.t.Fail("C16", "two_editors", fmt.Sprintf("schedule %v: both editors hold tag %s and both writes succeeded", sc, tag[0]))
 	}
 	h.t.Note(fmt.Sprintf("editors-sched-%d", k%len(scheds)))
@@ -907,14 +906,19 @@ func race(t *tr.Trace, r *tr.Rand, base string) {
 	h.t.Checked("C16.race_result")
 	if winner >= 0 && !junk {
 		okw := false
+		is := func(r rec, ok bool, exp, data int) bool {
+			return ok && r.exp != nil && *r.exp == exp && r.data == data
+		}
+		r1, ok1 := m[1]
+		r2, ok2 := m[2]
 		switch kinds[winner] {
 		case 0:
-			okw = m[1].data == winner%10 && *m[1].exp == 7200 && m[2].data == 0
+			okw = is(r1, ok1, 7200, winner%10) && is(r2, ok2, 3600, 0)
 		case 1:
-			okw = m[2].data == winner%10 && *m[2].exp == 7200 && m[1].data == 0
+			okw = is(r2, ok2, 7200, winner%10) && is(r1, ok1, 3600, 0)
 		default:
-			_, gone := m[1+winner%2]
-			okw = !gone && len(m) == 1
+			_, present := m[1+winner%2]
+			okw = !present && len(m) == 1
 		}
 		if !okw {
 			h.t.Fail("C16", "race_result", fmt.Sprintf("after the race the file holds %v, winner %d kind %d", mapS(m), winner, kinds[winner]))
@@ -1038,11 +1042,13 @@ func prepare(dir string, setup []rec) string {
 	return p
 }
 
+var quickSyscalls = map[string]bool{"openat": true, "write": true, "close": true, "renameat": true, "unlinkat": true}
+
 var killSyscalls = []string{"openat", "write", "close", "renameat", "unlinkat", "newfstatat", "fstat", "fsync", "fdatasync", "read"}
 
 // crashPoints runs one case: the operation in a child under strace, killed at
 // the n-th occurrence of one system call, for the chosen occurrences.
-func crashPoints(t *tr.Trace, base string, cc crashCase, full bool, budget *int) {
+func crashPoints(t *tr.Trace, base string, cc crashCase, full bool) {
 	exe, err := os.Executable()
 	if err != nil {
 		return
@@ -1108,13 +1114,10 @@ func crashPoints(t *tr.Trace, base string, cc crashCase, full bool, budget *int)
 			first = 1
 		}
 		for n := first; n <= total[sc]+1; n++ {
-			if !full {
-				// quick: the last occurrences only (the rename, the final
-				// writes, the close of the temp file)
-				if n < total[sc]-1 || *budget <= 0 {
-					continue
-				}
-				*budget--
+			if !full && !quickSyscalls[sc] {
+				// quick: every occurrence of the calls that change the
+				// directory or the files; thorough: also stat and read
+				continue
 			}
 			p := prepare(dir, cc.setup)
 			cmd := exec.Command("strace", "-o", "/dev/null", "-e", "trace="+sc,
@@ -1244,9 +1247,8 @@ func runTokstore(t *tr.Trace, r *tr.Rand, n int) {
 	}
 	// crash points: every occurrence in the thorough tier, a few in quick
 	full := n >= 1000
-	budget := 14
 	for _, cc := range crashCases {
-		crashPoints(t, base, cc, full, &budget)
+		crashPoints(t, base, cc, full)
 	}
 	ioFailure(t, base)
 }
